@@ -62,8 +62,16 @@ def val_ok(expected, got, exact):
 # generators
 
 
-def gen_knots(rng, dyadic):
+def gen_knots(rng, dyadic, epoch=False):
     n = rng.choice([1, 2, 2, 3, 3, 4, 5, 7])
+    if epoch:
+        # large absolute times (seconds since a distant reference date), as the I/O mixins produce
+        base = rng.choice([10_000_000.0, 1_700_000_000.0, 86_400.0 * 365 * 20])
+        step = rng.choice([600.0, 3600.0, 900.0])
+        ks = sorted(rng.sample(range(0, 40), n))
+        ts = [base + k * step for k in ks]
+        fs = [float(rng.randint(-64, 64)) * 6 for _ in ts]
+        return ts, fs
     if dyadic:
         ts = sorted(rng.sample([k / 8 for k in range(-40, 80)], n))
         fs = [rng.randint(-64, 64) / 16 for _ in ts]
@@ -118,7 +126,8 @@ def stream_numeric(c, prob, N):
     cases, lines = [], []
     for i in range(N):
         dy = rng.random() < 0.5
-        ts, fs = gen_knots(rng, dy)
+        epoch = rng.random() < 0.15
+        ts, fs = gen_knots(rng, dy, epoch)
         mode = rng.choice([0, 0, 1, 1, 2, 2, 3]) if rng.random() < 0.1 else rng.choice([0, 1, 2])
         fl, frr = gen_fill(rng), gen_fill(rng)
         kind = rng.choice(["scalar", "array", "array", "array_eq", "cols", "cols_scalar"])
@@ -128,6 +137,12 @@ def stream_numeric(c, prob, N):
             q = list(ts)
         else:
             q = gen_queries(rng, ts, rng.randint(1, 6))
+            if epoch or rng.random() < 0.15:
+                # a query array as long as the knot vector and close to it (shifted grid): the
+                # "nothing to interpolate" early exit must not fire
+                shift = rng.choice([1.0, 60.0, -60.0, 0.125, -0.125, 30.0]) if epoch else rng.choice([0.125, -0.125, 0.5])
+                q = [x + (shift if rng.random() < 0.8 else 0.0) for x in ts]
+                c.hit("interp/near-knot-array")
             if len(q) == len(ts) and q == ts:
                 kind = "array_eq"
         case = dict(kind=kind, mode=mode, ts=ts, fs=fs, fl=fl, fr=frr, q=q)
